@@ -6,6 +6,7 @@ import ConfModel.Generated.C15Facts
 import ConfModel.Lemmas.H2Frame
 import ConfModel.Lemmas.H2Retry
 import ConfModel.Lemmas.H2FrameSpec
+import ConfModel.Lemmas.H2Once
 import ConfModel.Spec.H2
 namespace ConfModel.Props.C15
 open ConfModel.H2 ConfModel.H2.Machine
@@ -97,6 +98,86 @@ example :
       [clientPreface.take 10, clientPreface.drop 10 ++ [0, 0, 0, 4], [0, 0, 0, 0, 0]]).2 = [Frame.other] := by
   decide
 
+
+/-! ### layer 2: streams -/
+
+/-- the frames of one `Read`/`Write` call are handled one after the other -/
+theorem handleFrames_eq_runL2 (c : L2) (isReq : Bool) (fs : List Frame) :
+    handleFrames c isReq fs = runL2 c (fs.map (fun f => (isReq, f))) := by
+  induction fs generalizing c with
+  | nil => rfl
+  | cons f fs ih => simp only [handleFrames, List.map_cons, runL2, ih]
+
+/-- **The trace of a stream is the trace of its projection.**  For every connection state
+and every sequence of frames of both directions, what the collector receives from stream
+`i` (and what the table holds for `i` afterwards) is what the one-stream machine `viewStep`
+produces from the frames that concern `i` (its own HEADERS/DATA/RST_STREAM and every
+GOAWAY) — frames of other streams, wherever they are interleaved, do not matter. -/
+theorem stream_is_projection (c : L2) (hc : TOK c.streams) (i : Nat) (l : List (Bool × Frame)) :
+    opsFor i (runL2 c l).2 = (runView i (view i c) (l.filter (fun df => concernsStream i df.2))).2 ∧
+    view i (runL2 c l).1 = (runView i (view i c) (l.filter (fun df => concernsStream i df.2))).1 := by
+  have h := runL2_view i l c hc
+  rw [h.1, h.2, runView_filter i l]
+  exact ⟨rfl, rfl⟩
+
+/-- **Interleaving independence.**  Two frame sequences that contain the frames concerning
+stream `i` in the same order — i.e. any two interleavings of the same streams that respect
+the order within stream `i` (and its order relative to GOAWAY frames) — give stream `i` the
+same completed trace(s). -/
+theorem streams_interleaving_independent (c : L2) (hc : TOK c.streams) (i : Nat) (l l' : List (Bool × Frame))
+    (h : l.filter (fun df => concernsStream i df.2) = l'.filter (fun df => concernsStream i df.2)) :
+    opsFor i (runL2 c l).2 = opsFor i (runL2 c l').2 ∧ view i (runL2 c l).1 = view i (runL2 c l').1 := by
+  have h1 := stream_is_projection c hc i l
+  have h2 := stream_is_projection c hc i l'
+  rw [h1.1, h1.2, h2.1, h2.2, h]
+  exact ⟨rfl, rfl⟩
+
+/-- non-vacuity of the hypothesis: two different interleavings of streams 1 and 3 -/
+example :
+    let a1 : Bool × Frame := (true, .headers 1 [(":method", "POST"), ("x-test-case-name", "a")] false)
+    let a2 : Bool × Frame := (true, .data 1 [0, 0, 0, 0, 1, 7] true)
+    let a3 : Bool × Frame := (false, .headers 1 [(":status", "200")] true)
+    let b1 : Bool × Frame := (true, .headers 3 [(":method", "POST"), ("x-test-case-name", "b")] true)
+    let b2 : Bool × Frame := (false, .rst 3 7)
+    [a1, a2, b1, a3, b2].filter (fun df => concernsStream 1 df.2) = [b1, a1, b2, a2, a3].filter (fun df => concernsStream 1 df.2)
+    ∧ [a1, a2, b1, a3, b2] ≠ [b1, a1, b2, a2, a3] := by
+  decide
+
+/-- **Exactly one completed trace, at the frame.**  A frame makes the collector see a
+`Complete` from stream `i` exactly when it removes a *named* stream `i` from the table
+(END_STREAM on the response, RST_STREAM from either side, GOAWAY with a lower last id). -/
+theorem complete_iff_named_stream_leaves (c : L2) (hc : TOK c.streams) (i : Nat) (isReq : Bool) (f : Frame) :
+    completesIn (opsFor i (handleFrame c isReq f).2) =
+      (if curLive (tGet i c.streams) = true ∧ tGet i (handleFrame c isReq f).1.streams = none then 1 else 0) := by
+  have hv := handleFrame_view c hc i isReq f
+  have ho := viewStep_once i (view i c) isReq f
+  rw [hv.2.1, ho.1, ← hv.1]
+  rfl
+
+/-- **One trace per named stream** (conservation law): along any frame sequence, the number
+of `Complete`s from stream id `i` plus one if a named stream is still open under `i` equals
+the number of named streams opened under `i` (plus one if one was open initially): every
+named stream yields exactly one completed trace, no later than when it leaves the table. -/
+theorem one_trace_per_named_stream (c : L2) (hc : TOK c.streams) (i : Nat) (l : List (Bool × Frame)) :
+    completesIn (opsFor i (runL2 c l).2) + b2n (curLive (tGet i (runL2 c l).1.streams)) =
+      b2n (curLive (tGet i c.streams)) + opens i (view i c) l := by
+  have h := runL2_view i l c hc
+  have hcons := runView_conservation i l (view i c)
+  rw [h.2]
+  have : tGet i (runL2 c l).1.streams = (view i (runL2 c l).1).cur := rfl
+  rw [this, h.1]
+  exact hcons
+
+/-- **Connection loss completes all open streams**: `cancelAll` (failed `Read`/`Write`,
+`Close`) yields exactly one `Complete` for every open named stream and empties the table. -/
+theorem connection_loss_completes_open_streams (c : L2) (hc : TOK c.streams) (err : Err) (i : Nat) :
+    completesIn (opsFor i (cancelAll c err).2) = b2n (curLive (tGet i c.streams)) ∧ (cancelAll c err).1.streams = [] :=
+  cancelAll_once c hc err i
+
+/-- the table invariant used above holds initially and is kept by every frame -/
+theorem table_inv_init : TOK ([] : Tbl) := by simp [TOK]
+theorem table_inv_run (c : L2) (hc : TOK c.streams) (l : List (Bool × Frame)) : TOK (runL2 c l).1.streams :=
+  TOK_runL2 l c hc
 
 /-! ### layer 3: the retry collector -/
 
